@@ -437,4 +437,4 @@ HYPOTHESES = ['affine_law_is_group: the target of the interpretation (A, add, ne
               'glv premises: lattice rows n_i1 + lambda n_i2 = 0 (mod r); phi(P) = lambda P; r P = 0; halves below 2^(64N-1)']
 
 # pinned theorems that discharge this package's group-level premises for the concrete C03 curve dictionaries
-EXTRA_PROP_FILES = ['Link']
+EXTRA_PROP_FILES = ['Link', 'Assoc']
